@@ -269,6 +269,13 @@ func reportAll(r *chk.Run, st *stats) {
 }
 
 func replay(kind string, input json.RawMessage) (bool, string) {
+	if kind == "walk" {
+		var w util.WalkInput
+		if err := json.Unmarshal(input, &w); err != nil {
+			return false, err.Error()
+		}
+		return util.ReplayWalk(w.Cells)
+	}
 	var in util.CellInput
 	if err := json.Unmarshal(input, &in); err != nil {
 		return false, err.Error()
@@ -356,7 +363,43 @@ func sample(r *chk.Run, class string, p, s int, neg bool, intD, fracD string) {
 	r.Sample(class, m)
 }
 
+// walks: decimals that share their integer part, their fraction, or differ in
+// the sign only, decoded back to back (sequence counterexamples).
+func walks(r *chk.Run) int64 {
+	var n int64
+	for _, ps := range [][2]int{{20, 4}, {65, 30}, {9, 0}, {10, 2}, {18, 9}, {1, 1}, {30, 30}} {
+		p, sc := ps[0], ps[1]
+		ip := p - sc
+		mk := func(neg bool, id, fd byte) util.CellInput {
+			digits := strings.Repeat(string([]byte{id}), ip)
+			if ip == 0 {
+				digits = "0"
+			}
+			v := digits
+			if sc > 0 {
+				v += "." + strings.Repeat(string([]byte{fd}), sc)
+			}
+			if neg && strings.Trim(v, "0.") != "" {
+				v = "-" + v
+			}
+			c := ref.VDecimal(p, sc, v)
+			return util.CellInput{Type: ref.TNewDecimal, Meta: uint16(p)<<8 | uint16(sc), Raw: c.Raw, Want: c.Text}
+		}
+		var cells []util.CellInput
+		for _, id := range []byte{'1', '1', '9', '0', '1'} {
+			for _, fd := range []byte{'0', '7', '7', '3', '0'} {
+				for _, neg := range []bool{false, true, false} {
+					cells = append(cells, mk(neg, id, fd))
+				}
+			}
+		}
+		n += util.RunWalk(r, "decimal", fmt.Sprintf("decimal(%d,%d)", p, sc), cells)
+	}
+	return n
+}
+
 func run(r *chk.Run) {
+	r.Eval(walks(r))
 	// The live heap of this check is tiny and every decode allocates: with the
 	// default pacing the collector would cycle continuously and serialise the
 	// workers. Collect only when 256 MiB of garbage has accumulated.
